@@ -18,7 +18,8 @@ def run(ctx):
     for d in (1, 2, 10, 63, 64):
         v, b = render.deep(rnd, d); cases.append(mkcase('D%d' % d, lib.new_cfg(), b)); expect['D%d' % d] = [v]
     # touching tokens
-    for k, (b, vals) in enumerate([(b'true[1]null"a"false{"b":2}1[2]3.5"x"-4e1{}', [True, [('int', 1)], None, 'a', False, {'b': ('int', 2)}, ('int', 1), [('int', 2)], ('flt', '3.5'), 'x', ('flt', '-4e1'), {}]),
+    for k, (b, vals) in enumerate([(b'2e00001 3E-00002 0e99999 1e-10000 1E+0000000000000000001 12e-0000000000000001 [7e000,8E+01]', [('flt', '2e00001'), ('flt', '3E-00002'), ('flt', '0e99999'), ('flt', '1e-10000'), ('flt', '1E+0000000000000000001'), ('flt', '12e-0000000000000001'), [('flt', '7e000'), ('flt', '8E+01')]]),
+                                   (b'true[1]null"a"false{"b":2}1[2]3.5"x"-4e1{}', [True, [('int', 1)], None, 'a', False, {'b': ('int', 2)}, ('int', 1), [('int', 2)], ('flt', '3.5'), 'x', ('flt', '-4e1'), {}]),
                                    (b'[1][2]{"a":1}{"b":2}""""[]{}', [[('int', 1)], [('int', 2)], {'a': ('int', 1)}, {'b': ('int', 2)}, '', '', [], {}]),
                                    (b'1E2 1e2 1E+2 1e-2 -0 -0.0 0e0', [('flt', '1E2'), ('flt', '1e2'), ('flt', '1E+2'), ('flt', '1e-2'), ('int', 0), ('flt', '-0.0'), ('flt', '0e0')])]):
         cases.append(mkcase('T%d' % k, lib.new_cfg(), b)); expect['T%d' % k] = vals
